@@ -1,8 +1,652 @@
 package vc
 
-// tryReplay attempts to turn a solver model into a concrete test on the real code.
-func tryReplay(rf *replayFile, o *Obligation, en *Engine) {
-	rf.ReplayNote = "model available (see 'model'); concrete replay generation not implemented for this signature"
+import (
+	"bytes"
+	"context"
+	"encoding/json"
+	"fmt"
+	"go/types"
+	"math/big"
+	"os"
+	"os/exec"
+	"path/filepath"
+	"strconv"
+	"strings"
+	"time"
+)
+
+// ReplayInfo is attached to every obligation of a function: what is needed to turn a
+// solver model into a concrete call of the real function.
+type ReplayInfo struct {
+	FuncKey  string
+	PkgPath  string
+	PkgDir   string
+	PkgName  string
+	Recv     string // receiver type name ("" for functions)
+	RecvPtr  bool
+	FuncName string
+	Params   []replayParam
+	Results  []string
+	ResTypes []types.Type
+	Specs    map[string]*SpecFunc
 }
 
-func runReplayTest(fn, test string) (string, bool) { return "", false }
+type replayParam struct {
+	Name string
+	Type types.Type
+	// terms to query, keyed by a path: "" (scalar), "len", "b<i>", "nil", "f:<Field>", "f:<Field>.len", "f:<Field>.b<i>"
+	Terms map[string]string
+}
+
+const replayMaxBytes = 96
+
+// buildReplayInfo records the SMT terms of the inputs of a top-level function.
+func (fr *Frame) buildReplayInfo(fc *FuncContract) *ReplayInfo {
+	fn := fr.fn
+	ri := &ReplayInfo{FuncKey: fc.Key, PkgPath: fc.PkgPath, FuncName: fn.Name(), Recv: fc.Recv, Results: fc.Results, Specs: fr.en.CS.Specs}
+	if fn.Pkg != nil {
+		ri.PkgName = fn.Pkg.Pkg.Name()
+	}
+	if p, ok := fr.en.byPath[fc.PkgPath]; ok && len(p.GoFiles) > 0 {
+		ri.PkgDir = filepath.Dir(p.GoFiles[0])
+	}
+	if recv := fn.Signature.Recv(); recv != nil {
+		_, ri.RecvPtr = recv.Type().(*types.Pointer)
+	}
+	for i := 0; i < fn.Signature.Results().Len(); i++ {
+		ri.ResTypes = append(ri.ResTypes, fn.Signature.Results().At(i).Type())
+	}
+	st := fr.entry
+	byteHeap := func() Term { return fr.heap(st, elemHeap(types.Typ[types.Uint8], ""), byteHeapSort) }
+	addBytes := func(m map[string]string, prefix string, v Val) {
+		m[prefix+"len"] = v.Len().S
+		m[prefix+"nil"] = Eq(v.Obj(), Nil).S
+		for i := 0; i < replayMaxBytes; i++ {
+			m[fmt.Sprintf("%sb%d", prefix, i)] = Select(Select(byteHeap(), v.Obj()), IAdd(v.Off(), IntT(int64(i)))).S
+		}
+	}
+	for i, p := range fn.Params {
+		rp := replayParam{Name: fc.Params[i], Type: p.Type(), Terms: map[string]string{}}
+		v := fr.params[i]
+		switch u := p.Type().Underlying().(type) {
+		case *types.Basic:
+			if isString(p.Type()) {
+				addBytes(rp.Terms, "", v)
+			} else if len(v.C) == 1 {
+				rp.Terms[""] = v.C[0].S
+			}
+		case *types.Slice:
+			if isByteLike(u.Elem()) {
+				addBytes(rp.Terms, "", v)
+				rp.Terms["cap"] = v.Cap().S
+			} else {
+				rp.Terms["unsupported"] = "true"
+			}
+		case *types.Pointer:
+			stt, ok := u.Elem().Underlying().(*types.Struct)
+			if !ok {
+				rp.Terms["unsupported"] = "true"
+				break
+			}
+			rp.Terms["nil"] = Eq(v.Term(), Nil).S
+			sname := typeName(u.Elem())
+			for k := 0; k < stt.NumFields(); k++ {
+				f := stt.Field(k)
+				switch fu := f.Type().Underlying().(type) {
+				case *types.Basic:
+					fv := fr.loadField(st, v.Term(), sname, stt, k)
+					if isString(f.Type()) {
+						addBytes(rp.Terms, "f:"+f.Name()+".", fv)
+					} else if len(fv.C) == 1 && fv.C[0].Sort != "F64" {
+						rp.Terms["f:"+f.Name()] = fv.C[0].S
+					}
+				case *types.Slice:
+					if isByteLike(fu.Elem()) {
+						fv := fr.loadField(st, v.Term(), sname, stt, k)
+						addBytes(rp.Terms, "f:"+f.Name()+".", fv)
+					}
+				}
+			}
+		case *types.Struct:
+			rp.Terms["unsupported"] = "true"
+		default:
+			rp.Terms["unsupported"] = "true"
+		}
+		ri.Params = append(ri.Params, rp)
+	}
+	return ri
+}
+
+// getValues asks the solver that answered sat for the values of the given terms.
+func getValues(file, solver string, terms []string, cfg SolverCfg) map[string]string {
+	src, err := os.ReadFile(file)
+	if err != nil || len(terms) == 0 {
+		return nil
+	}
+	out := map[string]string{}
+	// query in chunks to keep responses manageable
+	for start := 0; start < len(terms); start += 200 {
+		end := start + 200
+		if end > len(terms) {
+			end = len(terms)
+		}
+		q := "(get-value (" + strings.Join(terms[start:end], " ") + "))\n"
+		mfile := strings.TrimSuffix(file, ".smt2") + ".val.smt2"
+		os.WriteFile(mfile, append(append([]byte{}, src...), []byte(q)...), 0o644)
+		ctx, cancel := context.WithTimeout(context.Background(), cfg.Timeout+5*time.Second)
+		cmd := solverCmd(ctx, solver, mfile, cfg.Timeout, cfg.Seed)
+		var buf bytes.Buffer
+		cmd.Stdout = &buf
+		cmd.Run()
+		cancel()
+		s := buf.String()
+		i := strings.Index(s, "\n")
+		if i < 0 || strings.TrimSpace(s[:i]) != "sat" {
+			return out
+		}
+		tree := parseSx(strings.TrimSpace(s[i+1:]))
+		if tree == nil {
+			return out
+		}
+		for k, kid := range tree.kids {
+			if len(kid.kids) == 2 && start+k < end {
+				out[terms[start+k]] = kid.kids[1].String()
+			}
+		}
+	}
+	return out
+}
+
+func parseSMTInt(s string) (*big.Int, bool) {
+	s = strings.TrimSpace(s)
+	if strings.HasPrefix(s, "(- ") {
+		v, ok := parseSMTInt(strings.TrimSuffix(s[3:], ")"))
+		if !ok {
+			return nil, false
+		}
+		return v.Neg(v), true
+	}
+	if strings.HasPrefix(s, "#x") {
+		v, ok := new(big.Int).SetString(s[2:], 16)
+		return v, ok
+	}
+	if strings.HasPrefix(s, "#b") {
+		v, ok := new(big.Int).SetString(s[2:], 2)
+		return v, ok
+	}
+	if strings.HasPrefix(s, "(_ bv") {
+		f := strings.Fields(s[5:])
+		v, ok := new(big.Int).SetString(f[0], 10)
+		return v, ok
+	}
+	v, ok := new(big.Int).SetString(s, 10)
+	return v, ok
+}
+
+// tryReplay turns the model of a failed obligation into an in-package Go test, runs it
+// against /repo with `go test -overlay` and records whether the real code fails.
+func tryReplay(rf *replayFile, o *Obligation, en *Engine) {
+	ri := o.Replay
+	if ri == nil || ri.PkgDir == "" {
+		rf.ReplayNote = "no replay information for this function"
+		return
+	}
+	for _, p := range ri.Params {
+		if p.Terms["unsupported"] != "" {
+			rf.ReplayNote = "parameter " + p.Name + " has a type the replay generator cannot build (" + p.Type.String() + ")"
+			return
+		}
+	}
+	var terms []string
+	for _, p := range ri.Params {
+		for _, t := range p.Terms {
+			terms = append(terms, t)
+		}
+	}
+	smt := filepath.Join(verifDir, "work", rf.Property, sanitizeFile(o.Name)+".smt2")
+	vals := getValues(smt, o.Solver, terms, SolverCfg{Timeout: 20 * time.Second})
+	if len(vals) == 0 {
+		rf.ReplayNote = "could not obtain model values from " + o.Solver
+		return
+	}
+	test, desc, err := genReplayTest(ri, o, vals)
+	if err != nil {
+		rf.ReplayNote = "replay generation: " + err.Error()
+		return
+	}
+	rf.ReplayTest = test
+	rf.Inputs = desc
+	out, failed := runReplayTest(ri.PkgDir, test)
+	rf.ReplayOut = out
+	rf.Replayed = failed
+	if failed {
+		rf.ReplayNote = "the generated test fails on the real code (see replay_output)"
+	} else {
+		rf.ReplayNote = "the model's inputs do not make the real code fail (the counterexample is spurious at the code level or depends on state the test cannot build)"
+	}
+}
+
+func goBytesLit(vals map[string]string, terms map[string]string, prefix string) (string, int, bool) {
+	lv, ok := parseSMTInt(vals[terms[prefix+"len"]])
+	if !ok {
+		return "", 0, false
+	}
+	n := int(lv.Int64())
+	if n < 0 || n > replayMaxBytes {
+		return "", n, false
+	}
+	var b []byte
+	for i := 0; i < n; i++ {
+		v, ok := parseSMTInt(vals[terms[fmt.Sprintf("%sb%d", prefix, i)]])
+		if !ok {
+			v = big.NewInt(0)
+		}
+		b = append(b, byte(v.Int64()))
+	}
+	return strconv.Quote(string(b)), n, true
+}
+
+func genReplayTest(ri *ReplayInfo, o *Obligation, vals map[string]string) (string, string, error) {
+	var sb, desc strings.Builder
+	qual := func(p *types.Package) string {
+		if p.Path() == ri.PkgPath {
+			return ""
+		}
+		return p.Name()
+	}
+	imports := map[string]bool{"testing": true}
+	var setup []string
+	var args []string
+	recvExpr := ""
+	for i, p := range ri.Params {
+		name := p.Name
+		if name == "_recv" || strings.HasPrefix(name, "_p") {
+			name = fmt.Sprintf("arg%d", i)
+		}
+		ts := types.TypeString(p.Type, qual)
+		switch u := p.Type.Underlying().(type) {
+		case *types.Basic:
+			if isString(p.Type) {
+				lit, _, ok := goBytesLit(vals, p.Terms, "")
+				if !ok {
+					return "", "", fmt.Errorf("string %s too long or unknown in the model", name)
+				}
+				setup = append(setup, fmt.Sprintf("var %s %s = %s(%s)", name, ts, ts, lit))
+				fmt.Fprintf(&desc, "%s=%s ", name, lit)
+			} else if isBool(p.Type) {
+				setup = append(setup, fmt.Sprintf("var %s %s = %s", name, ts, vals[p.Terms[""]]))
+				fmt.Fprintf(&desc, "%s=%s ", name, vals[p.Terms[""]])
+			} else {
+				v, ok := parseSMTInt(vals[p.Terms[""]])
+				if !ok {
+					return "", "", fmt.Errorf("no value for %s", name)
+				}
+				setup = append(setup, fmt.Sprintf("var %s %s = %s(%s)", name, ts, ts, v.String()))
+				fmt.Fprintf(&desc, "%s=%s ", name, v.String())
+			}
+		case *types.Slice:
+			lit, n, ok := goBytesLit(vals, p.Terms, "")
+			if !ok {
+				return "", "", fmt.Errorf("slice %s too long (%d) or unknown in the model", name, n)
+			}
+			if vals[p.Terms["nil"]] == "true" {
+				setup = append(setup, fmt.Sprintf("var %s %s", name, ts))
+				fmt.Fprintf(&desc, "%s=nil ", name)
+			} else {
+				setup = append(setup, fmt.Sprintf("var %s %s = %s([]byte(%s))", name, ts, ts, lit))
+				fmt.Fprintf(&desc, "%s=%s ", name, lit)
+			}
+		case *types.Pointer:
+			if vals[p.Terms["nil"]] == "true" {
+				setup = append(setup, fmt.Sprintf("var %s %s", name, ts))
+				fmt.Fprintf(&desc, "%s=nil ", name)
+				break
+			}
+			stt := u.Elem().Underlying().(*types.Struct)
+			ets := types.TypeString(u.Elem(), qual)
+			setup = append(setup, fmt.Sprintf("%s := new(%s)", name, ets))
+			fmt.Fprintf(&desc, "%s=&{", name)
+			for k := 0; k < stt.NumFields(); k++ {
+				f := stt.Field(k)
+				fts := types.TypeString(f.Type(), qual)
+				if t, ok := p.Terms["f:"+f.Name()]; ok {
+					if isBool(f.Type()) {
+						setup = append(setup, fmt.Sprintf("%s.%s = %s", name, f.Name(), vals[t]))
+						fmt.Fprintf(&desc, "%s:%s ", f.Name(), vals[t])
+					} else if v, ok := parseSMTInt(vals[t]); ok {
+						setup = append(setup, fmt.Sprintf("%s.%s = %s(%s)", name, f.Name(), fts, v.String()))
+						fmt.Fprintf(&desc, "%s:%s ", f.Name(), v.String())
+					}
+				} else if _, ok := p.Terms["f:"+f.Name()+".len"]; ok {
+					lit, _, ok := goBytesLit(vals, p.Terms, "f:"+f.Name()+".")
+					if ok && vals[p.Terms["f:"+f.Name()+".nil"]] != "true" {
+						if isString(f.Type()) {
+							setup = append(setup, fmt.Sprintf("%s.%s = %s(%s)", name, f.Name(), fts, lit))
+						} else {
+							setup = append(setup, fmt.Sprintf("%s.%s = %s([]byte(%s))", name, f.Name(), fts, lit))
+						}
+						fmt.Fprintf(&desc, "%s:%s ", f.Name(), lit)
+					}
+				}
+			}
+			desc.WriteString("} ")
+		}
+		if i == 0 && ri.Recv != "" {
+			recvExpr = name
+		} else {
+			args = append(args, name)
+		}
+	}
+	// translate the clause (if this is a clause obligation)
+	tr := &goTranslator{ri: ri, imports: imports, paramNames: map[string]bool{}}
+	for _, p := range ri.Params {
+		tr.paramNames[p.Name] = true
+	}
+	clauseGo := ""
+	if o.Kind == "ensures" && o.ClauseExpr != nil {
+		g, err := tr.expr(o.ClauseExpr)
+		if err != nil {
+			return "", "", fmt.Errorf("cannot translate clause to Go: %v", err)
+		}
+		clauseGo = g
+	}
+	call := ri.FuncName + "(" + strings.Join(args, ", ") + ")"
+	if recvExpr != "" {
+		call = recvExpr + "." + call
+	}
+	fmt.Fprintf(&sb, "package %s\n\nimport (\n", ri.PkgName)
+	for im := range imports {
+		fmt.Fprintf(&sb, "\t%q\n", im)
+	}
+	sb.WriteString(")\n\n")
+	fmt.Fprintf(&sb, "// replay of obligation %s\nfunc TestGovcReplay(t *testing.T) {\n", o.Name)
+	sb.WriteString("\tdefer func() {\n\t\tif r := recover(); r != nil {\n\t\t\tt.Fatalf(\"GOVC-REPLAY PANIC: %v\", r)\n\t\t}\n\t}()\n")
+	for _, s := range setup {
+		sb.WriteString("\t" + s + "\n")
+	}
+	for _, s := range tr.pre {
+		sb.WriteString("\t" + s + "\n")
+	}
+	var resNames []string
+	for i := range ri.ResTypes {
+		n := fmt.Sprintf("ret%d", i)
+		if i < len(ri.Results) {
+			n = ri.Results[i]
+		}
+		resNames = append(resNames, n)
+	}
+	if len(resNames) > 0 {
+		fmt.Fprintf(&sb, "\t%s := %s\n", strings.Join(resNames, ", "), call)
+		for _, n := range resNames {
+			fmt.Fprintf(&sb, "\t_ = %s\n", n)
+		}
+	} else {
+		fmt.Fprintf(&sb, "\t%s\n", call)
+	}
+	if clauseGo != "" {
+		fmt.Fprintf(&sb, "\tif !(%s) {\n\t\tt.Fatalf(\"GOVC-REPLAY CLAUSE VIOLATED: %%s\", %s)\n\t}\n", clauseGo, strconv.Quote(o.Clause))
+	}
+	sb.WriteString("}\n")
+	return sb.String(), strings.TrimSpace(desc.String()), nil
+}
+
+// goTranslator renders a contract expression as Go source evaluated after the call.
+type goTranslator struct {
+	ri         *ReplayInfo
+	imports    map[string]bool
+	pre        []string // statements evaluated before the call (old values)
+	nold       int
+	paramNames map[string]bool
+	inOld      bool
+	subst      map[string]string
+}
+
+func (tr *goTranslator) expr(e Expr) (string, error) {
+	switch x := e.(type) {
+	case *ENum:
+		return x.V.String(), nil
+	case *EStr:
+		return strconv.Quote(x.V), nil
+	case *EIdent:
+		if s, ok := tr.subst[x.Name]; ok {
+			return s, nil
+		}
+		return x.Name, nil
+	case *ECond:
+		c, err := tr.expr(x.C)
+		if err != nil {
+			return "", err
+		}
+		a, err := tr.expr(x.A)
+		if err != nil {
+			return "", err
+		}
+		b, err := tr.expr(x.B)
+		if err != nil {
+			return "", err
+		}
+		// typed via a generic helper is not available in-package: use an immediately invoked func with interface comparison
+		return fmt.Sprintf("func() int64 { if %s { return int64(%s) }; return int64(%s) }()", c, a, b), nil
+	case *EUn:
+		a, err := tr.expr(x.X)
+		if err != nil {
+			return "", err
+		}
+		return "(" + x.Op + a + ")", nil
+	case *EBin:
+		a, err := tr.expr(x.X)
+		if err != nil {
+			return "", err
+		}
+		b, err := tr.expr(x.Y)
+		if err != nil {
+			return "", err
+		}
+		switch x.Op {
+		case "==>":
+			return fmt.Sprintf("(!(%s) || (%s))", a, b), nil
+		case "<==>":
+			return fmt.Sprintf("((%s) == (%s))", a, b), nil
+		}
+		if _, isCond := x.Y.(*ECond); isCond {
+			a = "int64(" + a + ")"
+		}
+		if _, isCond := x.X.(*ECond); isCond {
+			b = "int64(" + b + ")"
+		}
+		return fmt.Sprintf("(%s %s %s)", a, x.Op, b), nil
+	case *ESel:
+		a, err := tr.expr(x.X)
+		if err != nil {
+			return "", err
+		}
+		return a + "." + x.Name, nil
+	case *EIndex:
+		a, err := tr.expr(x.X)
+		if err != nil {
+			return "", err
+		}
+		i, err := tr.expr(x.I)
+		if err != nil {
+			return "", err
+		}
+		return fmt.Sprintf("%s[%s]", a, i), nil
+	case *ESlice:
+		a, err := tr.expr(x.X)
+		if err != nil {
+			return "", err
+		}
+		lo, hi := "", ""
+		if x.Lo != nil {
+			if lo, err = tr.expr(x.Lo); err != nil {
+				return "", err
+			}
+		}
+		if x.Hi != nil {
+			if hi, err = tr.expr(x.Hi); err != nil {
+				return "", err
+			}
+		}
+		return fmt.Sprintf("%s[%s:%s]", a, lo, hi), nil
+	case *ECall:
+		name := ""
+		if id, ok := x.Fun.(*EIdent); ok {
+			name = id.Name
+		}
+		var as []string
+		argsOf := func() error {
+			for _, a := range x.Args {
+				s, err := tr.expr(a)
+				if err != nil {
+					return err
+				}
+				as = append(as, s)
+			}
+			return nil
+		}
+		switch name {
+		case "old":
+			if tr.inOld {
+				return tr.expr(x.Args[0])
+			}
+			tr.inOld = true
+			s, err := tr.expr(x.Args[0])
+			tr.inOld = false
+			if err != nil {
+				return "", err
+			}
+			if len(tr.subst) > 0 {
+				// depends on a bound variable: cannot be hoisted; inputs of byte slices are copied instead
+				return "", fmt.Errorf("old() under a quantifier is not supported by the replay translator")
+			}
+			tr.nold++
+			v := fmt.Sprintf("old%d", tr.nold)
+			tr.pre = append(tr.pre, fmt.Sprintf("%s := %s", v, s))
+			return v, nil
+		case "len", "cap", "min", "max":
+			if err := argsOf(); err != nil {
+				return "", err
+			}
+			return name + "(" + strings.Join(as, ", ") + ")", nil
+		case "sameSlice":
+			if err := argsOf(); err != nil {
+				return "", err
+			}
+			tr.imports["unsafe"] = true
+			return fmt.Sprintf("(len(%s) == (%s)-(%s) && (len(%s) == 0 || unsafe.StringData(string(%s)) != nil) && string(%s) == string(%s[%s:%s]))", as[0], as[3], as[2], as[0], as[0], as[0], as[1], as[2], as[3]), nil
+		case "BE16":
+			if err := argsOf(); err != nil {
+				return "", err
+			}
+			tr.imports["encoding/binary"] = true
+			return fmt.Sprintf("binary.BigEndian.Uint16(%s[%s:])", as[0], as[1]), nil
+		case "BE32":
+			if err := argsOf(); err != nil {
+				return "", err
+			}
+			tr.imports["encoding/binary"] = true
+			return fmt.Sprintf("binary.BigEndian.Uint32(%s[%s:])", as[0], as[1]), nil
+		case "bytesEq":
+			if err := argsOf(); err != nil {
+				return "", err
+			}
+			return fmt.Sprintf("(string(%s[%s:(%s)+(%s)]) == string(%s[%s:(%s)+(%s)]))", as[0], as[1], as[1], as[4], as[2], as[3], as[3], as[4]), nil
+		case "fresh", "allocated":
+			return "true", nil
+		case "forall":
+			if len(x.Args) < 4 {
+				return "", fmt.Errorf("forall arity")
+			}
+			id := x.Args[0].(*EIdent).Name
+			lo, err := tr.expr(x.Args[1])
+			if err != nil {
+				return "", err
+			}
+			hi, err := tr.expr(x.Args[2])
+			if err != nil {
+				return "", err
+			}
+			if tr.subst == nil {
+				tr.subst = map[string]string{}
+			}
+			tr.subst[id] = id
+			body, err := tr.expr(x.Args[3])
+			delete(tr.subst, id)
+			if err != nil {
+				return "", err
+			}
+			return fmt.Sprintf("func() bool { for %s := int(%s); %s < int(%s); %s++ { if !(%s) { return false } }; return true }()", id, lo, id, hi, id, body), nil
+		}
+		if sf, ok := tr.ri.Specs[name]; ok && sf.Body != nil {
+			if tr.subst == nil {
+				tr.subst = map[string]string{}
+			}
+			saved := map[string]string{}
+			for i, p := range sf.Params {
+				s, err := tr.expr(x.Args[i])
+				if err != nil {
+					return "", err
+				}
+				if old, ok := tr.subst[p]; ok {
+					saved[p] = old
+				}
+				tr.subst[p] = "(" + s + ")"
+			}
+			body, err := tr.expr(sf.Body)
+			for _, p := range sf.Params {
+				if old, ok := saved[p]; ok {
+					tr.subst[p] = old
+				} else {
+					delete(tr.subst, p)
+				}
+			}
+			return body, err
+		}
+		// type conversion or unknown: render as a Go call
+		f, err := tr.expr(x.Fun)
+		if err != nil {
+			return "", err
+		}
+		if err := argsOf(); err != nil {
+			return "", err
+		}
+		switch name {
+		case "sameObj", "typeIs", "ptrOf", "dynNonNil", "has", "loopFresh", "forallref":
+			return "", fmt.Errorf("pseudo-function %s has no Go rendering", name)
+		}
+		return f + "(" + strings.Join(as, ", ") + ")", nil
+	}
+	return "", fmt.Errorf("unsupported expression")
+}
+
+func runReplayTest(pkgDir, test string) (string, bool) {
+	work := filepath.Join(verifDir, "work", "replay")
+	os.MkdirAll(work, 0o755)
+	tf, err := os.CreateTemp(work, "replay_*_test.go")
+	if err != nil {
+		return err.Error(), false
+	}
+	tf.WriteString(test)
+	tf.Close()
+	defer os.Remove(tf.Name())
+	ov := map[string]map[string]string{"Replace": {filepath.Join(pkgDir, "zz_govc_replay_test.go"): tf.Name()}}
+	ob, _ := json.Marshal(ov)
+	of := tf.Name() + ".overlay.json"
+	os.WriteFile(of, ob, 0o644)
+	defer os.Remove(of)
+	ctx, cancel := context.WithTimeout(context.Background(), 120*time.Second)
+	defer cancel()
+	cmd := exec.CommandContext(ctx, "go", "test", "-overlay", of, "-vet=off", "-count=1", "-timeout", "60s", "-run", "^TestGovcReplay$", ".")
+	cmd.Dir = pkgDir
+	cmd.Env = append(os.Environ(), "GOFLAGS=-mod=mod", "GOPROXY=off", "GOSUMDB=off", "GOTOOLCHAIN=local")
+	var buf bytes.Buffer
+	cmd.Stdout = &buf
+	cmd.Stderr = &buf
+	cmd.Run()
+	out := buf.String()
+	if len(out) > 4000 {
+		out = out[:4000]
+	}
+	failed := strings.Contains(out, "GOVC-REPLAY PANIC") || strings.Contains(out, "GOVC-REPLAY CLAUSE VIOLATED") || strings.Contains(out, "panic: test timed out")
+	return out, failed
+}
